@@ -83,6 +83,35 @@ fn instances_tok(l: &[InstanceInformation]) -> String {
     s
 }
 
+thread_local! {
+    static ASYNC_TWIN: std::cell::Cell<bool> = std::cell::Cell::new(false);
+}
+
+/// add_response_to_resources of the sync listener, or (when the twin run is active) of the tokio listener, which is a
+/// separate copy of the same logic
+fn ingest(store: &mut Store, p: Packet, svc: &simple_dns::Name, full: &simple_dns::Name) -> Vec<InstanceInformation> {
+    if ASYNC_TWIN.with(|c| c.get()) {
+        let rt = tokio::runtime::Builder::new_current_thread().build().expect("tokio runtime");
+        rt.block_on(store.add_response_async(p, svc, full, true))
+    } else {
+        store.add_response(p, svc, full, true)
+    }
+}
+
+/// runs `f` with the sync listener's ingest and again with the tokio twin's; the two outputs must be identical
+fn with_twin(f: impl Fn() -> String) -> String {
+    ASYNC_TWIN.with(|c| c.set(false));
+    let a = f();
+    ASYNC_TWIN.with(|c| c.set(true));
+    let b = f();
+    ASYNC_TWIN.with(|c| c.set(false));
+    if a == b {
+        a
+    } else {
+        format!("TWIN-MISMATCH sync=[{}] tokio=[{}]", a, b)
+    }
+}
+
 pub fn run_store_toks(args: &[&str]) -> String {
     let mut t = Toks { t: args, p: 0 };
     let mut store = Store::new();
@@ -162,7 +191,7 @@ pub fn run_store_toks(args: &[&str]) -> String {
                     Some(p) => p,
                     None => return "BADCASE".into(),
                 };
-                let sent = store.add_response(p, &svc, &full, true);
+                let sent = ingest(&mut store, p, &svc, &full);
                 out.push_str(" | I ");
                 out.push_str(&instances_tok(&sent));
             }
@@ -211,7 +240,7 @@ pub fn run_store_toks(args: &[&str]) -> String {
                 let disc = match Packet::parse(&d) {
                     Ok(p) => {
                         if p.has_flags(PacketFlag::RESPONSE) {
-                            let sent = store.add_response(p, &svc, &me, true);
+                            let sent = ingest(&mut store, p, &svc, &me);
                             format!("ING {}", instances_tok(&sent))
                         } else {
                             reply_tok(&store, p)
@@ -236,7 +265,12 @@ pub fn run_store_toks(args: &[&str]) -> String {
 }
 
 pub fn run_store(args: &[&str]) -> String {
-    run_store_toks(args)
+    // cases that ingest responses are run through both listeners (untimed cases only: T sleeps)
+    if args.iter().any(|a| *a == "I" || *a == "D") && !args.iter().any(|a| *a == "T") {
+        with_twin(|| run_store_toks(args))
+    } else {
+        run_store_toks(args)
+    }
 }
 
 /// HISTB h1 ;; h2 ;; ... : independent histories run concurrently (they are sleep-bound); outputs joined by " ;; "
@@ -265,6 +299,10 @@ pub fn run_histb(args: &[&str]) -> String {
 
 /// DISC svc me ttl n peer...: see coq/theories/Driver.v
 pub fn run_disc(args: &[&str]) -> String {
+    with_twin(|| run_disc_once(args))
+}
+
+fn run_disc_once(args: &[&str]) -> String {
     use simple_dns::rdata::RData;
     use simple_dns::Name;
     let mut t = Toks { t: args, p: 0 };
@@ -383,7 +421,7 @@ pub fn run_disc(args: &[&str]) -> String {
         };
         match Packet::parse(&bytes) {
             Ok(q) => {
-                let sent = store.add_response(q, &svc, &me, true);
+                let sent = ingest(&mut store, q, &svc, &me);
                 out.push_str(" | I ");
                 out.push_str(&instances_tok(&sent));
             }
